@@ -166,16 +166,22 @@ def check_block_layers(ctx, prog, tag):
     ctx.ob("C06.I5.parent-layers-are-appended", tag + "load_blocks", bool(apps),
            "load_blocks no longer appends the parent's blocks to the existing stacks", lb.loc)
     for c in apps:
-        src = flow.origins(lb, c.args[0])
-        ok = bool(src) and all(o.kind == "call" and o.call.name.split("::")[-1] in ("or_default", "or_insert_with", "or_insert")
-                               for o in src)
-        via_entry = False
-        for o in src:
-            if o.kind == "call":
-                for o2 in flow.origins(lb, o.call.args[0]):
-                    if o2.kind == "call" and o2.call.name.endswith("::entry") and any(
-                            "blocks" in o3.proj for o3 in flow.origins(lb, o2.call.args[0])):
-                        via_entry = True
+        # the stack the layer is appended to is one stored (or being stored) in `state.blocks` under that name:
+        # entry().or_default(), a matched Occupied/Vacant entry, get_mut() ...; never a fresh stack that replaces one
+        def rooted_in_blocks(op, depth=0):
+            src_ = flow.origins(lb, op)
+            if not src_ or depth > 5:
+                return False
+            for o_ in src_:
+                if "blocks" in o_.proj and o_.kind == "arg":
+                    continue
+                if o_.kind == "call" and o_.call.args and "BlockStack" not in o_.call.name.split("::")[-2:][0] and \
+                        rooted_in_blocks(o_.call.args[0], depth + 1):
+                    continue
+                return False
+            return True
+        ok = rooted_in_blocks(c.args[0])
+        via_entry = ok
         ctx.ob("C06.I5.parent-layer-goes-below-existing-entry", tag + "load_blocks", ok and via_entry,
                "the parent's block is not appended to `state.blocks.entry(name).or_default()`: an existing (more "
                "derived) definition would be replaced or shadowed", lb.where(c.bb))
